@@ -87,7 +87,8 @@ def func(name, **kw):
 IDENTS = ["a", "b", "c1", "foo", "bar-baz", "x_y", "-moz-x", "main", "red", "auto", "none", "solid", "i😀"]
 ESCAPED_IDENTS = [("a.b", "a\\.b"), ("123", "\\31 23"), ("café", "caf\\e9 "), ("a b", "a\\ b"), ("x:y", "x\\:y")]
 CLASSES = ["a", "b", "c", "item", "btn-primary", "x_1", "中", "a-b", "😀x", "b😀"]
-UNITS = ["px", "em", "rem", "vh", "vw", "deg", "s", "ms", "fr", "RPX", "rpxx", "erpx", "rp", "x"]
+# (`RPX` / `Rpx` are not generated: CSS units are ASCII case-insensitive, the property spells the unit `rpx`)
+UNITS = ["px", "em", "rem", "vh", "vw", "deg", "s", "ms", "fr", "rpxx", "erpx", "rp", "x", "PX", "Em"]
 PSEUDO = ["hover", "first-child", "before", "active", "root"]
 PROPS = ["color", "margin", "width", "z-index", "font", "background", "--x", "--my-var", "transform", "grid-template-columns", "content", "line-height"]
 INT_TEXTS = ["0", "1", "2", "7", "10", "100", "255", "999", "1000", "65535", "65536", "99999", "100000", "999999", "1000000", "9999999", "16777215", "16777216", "16777217", "2147483647", "-1", "-2147483648", "+5", "123456", "1234567", "12345678", "-1234567", "-9999999", "-16777217", "+33554433", "99999999", "-123456789"]
